@@ -14,6 +14,9 @@ CONSTANTS
   Hook = TRUE
   Steer = TRUE
   Emit = TRUE
+  Sizes = {1}
+  Targets = {}
+  Canon = FALSE
 INVARIANTS PrintFinal
 VIEW View
 CHECK_DEADLOCK FALSE
